@@ -18,7 +18,7 @@ import (
 
 func init() {
 	Register(&Scenario{Prop: "C09", Name: "multi-db-isolation", Run: scenC09, SoftParks: true, Weight: 1,
-		Rule: "instance P with 2-4 databases (types and write lists mixed) on its default shared event bus, peer Q (and sometimes R) opening a random subset; one database is kept idle after setup; 4-14 (thorough 4-36) writes on the other databases from any peer holding them, replication under faults, Load(-1) on a non-idle database; oracles: every payload published on a database topic or a direct channel names one database and carries only heads of that database's log; the idle database's log, replication status and cached head keys never change and no store event carries its address; every EventWrite/EventReplicated carries only entries of its own database; after a final reconnect of all peers every holder of a database has every acknowledged write of that database; non-trivial = >=2 active databases on P, >=1 replication into P and >=1 write on P while the idle database was watched"})
+		Rule: "instance P with 2-4 databases (types and write lists mixed) on its default shared event bus, peer Q (and sometimes R) opening a random subset; one database is kept idle after setup; 4-14 (thorough 4-36) writes on the other databases from any peer holding them (one operation in four writes to all of a peer's active databases at the same time), replication under faults, Load(-1) on a non-idle database; oracles: every payload published on a database topic or a direct channel names one database and carries only heads of that database's log; the idle database's log, replication status and cached head keys never change and no store event carries its address; every EventWrite/EventReplicated carries only entries of its own database; after a final reconnect of all peers every holder of a database has every acknowledged write of that database; non-trivial = >=2 active databases on P, >=1 replication into P and >=1 write on P while the idle database was watched"})
 }
 
 type c09db struct {
@@ -221,6 +221,52 @@ func scenC09(k *K) {
 		}
 		pi := holders[k.C.Intn(len(holders))]
 		st := db.stores[pi]
+		if k.C.Chance(1, 4) {
+			// writes on several databases of one instance at the same time (their events
+			// share the instance's bus, their announcements are prepared concurrently)
+			var ops []*Op
+			var odbs []*c09db
+			for _, d2 := range dbs {
+				if d2.idle || d2.stores[pi] == nil {
+					continue
+				}
+				d2 := d2
+				st2 := d2.stores[pi]
+				wseq++
+				val := fmt.Sprintf("w%d.%d", pi, wseq)
+				ops = append(ops, k.Go(pi, fmt.Sprintf("write %s %s", short(d2.addr), val), func() (interface{}, error) {
+					ctx, cancel := OpCtx(60 * time.Second)
+					defer cancel()
+					return c09Write(ctx, st2, val)
+				}))
+				odbs = append(odbs, d2)
+			}
+			k.Wait()
+			for j := 0; j < 40; j++ {
+				done := true
+				for _, o := range ops {
+					done = done && k.IsDone(o)
+				}
+				if done {
+					break
+				}
+				k.Step()
+			}
+			for j, o := range ops {
+				if k.IsDone(o) && o.Err == nil {
+					active[odbs[j].addr] = true
+					if pi == 0 {
+						writesOnP++
+					}
+					if w, ok := o.Val.(operation.Operation); ok && w != nil {
+						acked[odbs[j].addr] = append(acked[odbs[j].addr], w.GetEntry().GetHash().String())
+					}
+				}
+			}
+			k.W.Stat("writes-on-several-databases-at-once")
+			k.Steps(k.C.Intn(8))
+			continue
+		}
 		if k.C.Chance(1, 8) && pi == 0 {
 			k.Do(0, "load", 200, func() (interface{}, error) {
 				ctx, cancel := OpCtx(5 * time.Minute)
